@@ -44,6 +44,9 @@ type File struct {
 	Package string `json:"package"`
 	// PackageComment is the leading comment of the `package` statement (SourceCodeInfo path [2]); nil = none
 	PackageComment *string   `json:"packageComment,omitempty"`
+	// GoPackage: directory / package name of a Go package of its own for this (dependency) file ("" = the struct package of the
+	// generated file); the import path is the batch's import base + "/" + GoPackage
+	GoPackage string `json:"goPackage,omitempty"`
 	Messages       []Message `json:"messages"`
 	Enums          []Enum    `json:"enums"`
 }
@@ -52,6 +55,8 @@ type File struct {
 type Request struct {
 	Deps []File `json:"deps"`
 	File File   `json:"file"`
+	// ImportBase is the Go import path of the directory the batch is built in (set by the pipeline, not part of the case)
+	ImportBase string `json:"-"`
 }
 
 // SchemaType mirrors the plugin's time_type / duration_type records.
